@@ -106,7 +106,21 @@ def denote(q, p):
     raise Undefined()
 
 
+TOTAL_TESTS = {0, 4}      # user test functions of the twin table that never raise
+
+
+def wf_query(q):
+    """the DSL's own precondition for 'never raises': user test functions are total"""
+    if q[0] in ("and", "or"):
+        return wf_query(q[1]) and wf_query(q[2])
+    if q[0] == "not":
+        return wf_query(q[1])
+    return not (q[0] == "S" and q[3][0] == "user" and q[3][1] not in TOTAL_TESTS)
+
+
 def hit(q, m, p):
+    if not wf_query(q):
+        raise Undefined()
     return (not m or p["meas"] == m) and denote(q, p)
 
 
